@@ -8,14 +8,15 @@ ROOT=$(pwd)
 export GOFLAGS=-mod=mod GOPROXY=off GOSUMDB=off GOTOOLCHAIN=local CGO_ENABLED=1
 export VERIF_ROOT=$ROOT
 GO=${VERIF_GO:-go1.26}
+REPO=${VERIF_REPO:-/repo}
 
 build() {
   mkdir -p "$ROOT/bin" "$ROOT/work"
   exec 9> "$ROOT/work/.build.lock"
   flock 9
-  cp /repo/go.sum "$ROOT/harness/go.sum" || return 1
+  cp "$REPO/go.sum" "$ROOT/harness/go.sum" || return 1
   (cd "$ROOT/harness" && $GO build -tags verif -o "$ROOT/bin/vcheck" ./cmd/vcheck) || return 1
-  (cd /repo && $GO build -tags verif -o "$ROOT/bin/gojq" ./cmd/gojq) || return 1
+  (cd "$REPO" && $GO build -tags verif -o "$ROOT/bin/gojq" ./cmd/gojq) || return 1
   if [ "${1:-}" = race ]; then
     (cd "$ROOT/harness" && $GO build -race -tags verif -o "$ROOT/bin/vcheck.race" ./cmd/vcheck) || return 1
   fi
